@@ -253,6 +253,49 @@ def inst_public_topk(chunks, k, split_every=None):
                     unit="routines._topk.topk + reduction() + tree lowering + chunk.topk/topk_aggregate", cost=3 ** n)
 
 
+def inst_public_argtopk(chunks, k, split_every=None):
+    """the public argtopk (1-d, concrete chunk sizes, symbolic data; positions come from the real arange layer): min(|k|, n)
+    positions, pairwise distinct, in range, whose values are sorted and leave nothing better out"""
+    n = sum(chunks)
+
+    def body(E):
+        import dask_array.io._from_array as FAm
+        from symx.graph import Runner
+
+        from . import catalog
+
+        w = catalog.W(E)
+        xs = _sym_data(E, n)
+        cs = (tuple(chunks),)
+        node = w.space.make(FAm.FromArray, leaf("X", (n,)), cs, _symx_attrs=dict(_meta=np.empty((0,)), chunks=cs, _name="x"))
+        blocks, pos = {}, 0
+        for i, c in enumerate(chunks):
+            blocks[("x", i)] = np.array(list(xs[pos:pos + c]), dtype=object)
+            pos += c
+        node.__dict__["_symx_layer"] = blocks
+        coll = w.fn(catalog.NC, "new_collection")(node)
+        out = w.fn("dask_array.routines._topk", "argtopk")(coll, k, split_every=split_every)
+        m = catalog.stages(E, w, out.expr, {"materialized"})["materialized"]
+        dsk = catalog._layers(m)
+        r = Runner(dsk, kernels=dict(arange=None))  # index blocks are real NumPy integers here
+        parts = [np.asarray(r.get((m._name, j))).ravel() for j in range(len(m.chunks[0]))]
+        res = [int(v) for v in np.concatenate(parts)] if parts else []
+        want = min(abs(k), n)
+        E.ensure("computed-length-is-min(|k|,n)", len(res) == want)
+        E.ensure("advertised-shape-is-the-computed-shape", out.shape == (len(res),))
+        E.ensure("positions-distinct-and-in-range", len(set(res)) == len(res) and all(0 <= v < n for v in res))
+        if len(set(res)) != len(res) or not all(0 <= v < n for v in res):
+            return
+        better = (lambda a, b: a >= b) if k > 0 else (lambda a, b: a <= b)
+        vals = [xs[v] for v in res]
+        E.ensure("sorted", AND(*[better(vals[i], vals[i + 1]) for i in range(len(vals) - 1)]) if len(vals) > 1 else True)
+        if vals:
+            E.ensure("nothing-better-left-out", AND(*[better(vals[-1], xs[j]) for j in range(n) if j not in res]) if len(res) < n else True)
+
+    return Instance(f"public_argtopk[chunks={chunks},k={k},split_every={split_every}]", body, dict(chunks=chunks, k=k, split_every=split_every),
+                    unit="routines._topk.argtopk + reduction() + chunk.argtopk/argtopk_aggregate", cost=3 ** n)
+
+
 def inst_public_nanarg(which, chunks, nan_at, axis, split_every=None):
     """the public nanargmin/nanargmax along `axis` of a 2-d array with concrete chunk sizes, NaN at the positions `nan_at`
     and symbolic reals elsewhere (object-array blocks through the real graph): per output slice, the answer is the first
@@ -513,6 +556,9 @@ def instances(tier):
     out.append(inst_public_topk((2, 2), 2))
     out.append(inst_public_topk((2, 1), -2, split_every=2))
     out.append(inst_public_topk((2, 1), 5))  # more than there is
+    out.append(inst_public_argtopk((2, 2), 2))
+    out.append(inst_public_argtopk((2, 1), -2, split_every=2))
+    out.append(inst_public_argtopk((2, 1), 3))  # exactly all there is
     for which in ("min", "max"):
         out.append(inst_public_extremum(which, (1, 2), 2))
         out.append(inst_public_extremum(which, (1, 1, 0, 0), 2))  # a whole group of the tree is empty
